@@ -66,6 +66,10 @@ Proof.
   - apply sp_Qltb_ge in E. tauto.
 Qed.
 
+Lemma bernoulli_pmf_iff p u :
+  (bernoulli_u p u = 1%Z <-> u < p) /\ (bernoulli_u p u = 0%Z <-> p <= u).
+Proof. split; [apply bernoulli_one_iff | apply bernoulli_zero_iff]. Qed.
+
 (* The sampler is the inverse transform of the *reflected* draw 1-u (uniform on (0,1]):
    sample <= t  <->  1-u <= cdf t, for every integer t. *)
 Lemma bernoulli_inverse_cdf p u t : 0 <= u -> u < 1 ->
@@ -204,6 +208,10 @@ Lemma poisson_gen_least pmf fuel u k : poisson_gen pmf fuel u = Ok k ->
 Proof.
   intro H. apply (poisson_loop_spec pmf u fuel 0%nat 0 k); [reflexivity | intros; lia | exact H].
 Qed.
+
+Lemma poisson_support pmf fuel u k : poisson_gen pmf fuel u = Ok k ->
+  (0 <= Z.of_nat k)%Z /\ u < psum pmf k /\ (forall j, (j < k)%nat -> psum pmf j <= u).
+Proof. intro H. split; [apply Zle_0_nat | exact (poisson_gen_least pmf fuel u k H)]. Qed.
 
 Lemma psum_mono pmf : (forall j, 0 <= pmf j) -> forall a b, (a <= b)%nat -> psum pmf a <= psum pmf b.
 Proof.
@@ -536,3 +544,41 @@ Proof.
 Qed.
 
 End Ext.
+
+(* ---------- a rational stand-in showing the log/exp hypotheses are satisfiable ---------- *)
+Lemma inv_le_iff x y : 0 < x -> 0 < y -> (x <= y <-> / y <= / x).
+Proof.
+  intros Hx Hy.
+  assert (Ax : / x * x == 1) by (field; lra). assert (Ay : / y * y == 1) by (field; lra).
+  assert (Px : 0 < / x) by (apply Qinv_lt_0_compat; exact Hx).
+  assert (Py : 0 < / y) by (apply Qinv_lt_0_compat; exact Hy).
+  set (a := / x) in *. set (b := / y) in *.
+  assert (Pab : 0 < a * b) by nra.
+  split; intro H.
+  - assert (K : 0 <= (y - x) * (a * b)) by (apply Qmult_le_0_compat; lra).
+    assert (E : (y - x) * (a * b) == a * (b * y) - b * (a * x)) by ring.
+    rewrite E, Ax, Ay in K. lra.
+  - assert (Pxy : 0 < x * y) by nra.
+    assert (K : 0 <= (a - b) * (x * y)) by (apply Qmult_le_0_compat; lra).
+    assert (E : (a - b) * (x * y) == (a * x) * y - (b * y) * x) by ring.
+    rewrite E, Ax, Ay in K. lra.
+Qed.
+Lemma inv_stand_in_mono : forall x y, 0 < x -> x <= 1 -> 0 < y -> y <= 1 ->
+  (x <= y <-> 1 - / x <= 1 - / y).
+Proof. intros x y Hx _ Hy _. rewrite (inv_le_iff x y Hx Hy). split; intro; lra. Qed.
+Lemma inv_stand_in_en : forall z, 0 <= z ->
+  0 < / (1 + z) /\ / (1 + z) <= 1 /\ 1 - / / (1 + z) == - z.
+Proof.
+  intros z Hz. assert (P : 0 < 1 + z) by lra.
+  split; [apply Qinv_lt_0_compat; exact P|]. split.
+  - assert (A : / (1 + z) * (1 + z) == 1) by (field; lra).
+    assert (Pi : 0 < / (1 + z)) by (apply Qinv_lt_0_compat; exact P).
+    set (a := / (1 + z)) in *. nra.
+  - rewrite Qinv_involutive. ring.
+Qed.
+Lemma inv_stand_in_sign : forall x, 0 < x -> x <= 1 -> 1 - / x <= 0.
+Proof.
+  intros x Hx H1. assert (A : / x * x == 1) by (field; lra).
+  assert (Pi : 0 < / x) by (apply Qinv_lt_0_compat; exact Hx).
+  set (a := / x) in *. nra.
+Qed.
